@@ -37,6 +37,11 @@ CHECKS = {
             "For every tree within the bound z3 decides for ALL declared dimension vectors and ALL quantity values that inference accepts exactly the well-formed inputs, returns the compositional dimension and a value-equal expression, and that substituting non-zero quantities gives the same dimension through the real quantity collector.",
             "Trusted: z3, vlib/qspec.ispec, vlib/lift.py stubs. Zero-ness that is semantic rather than literal (0**x bases, cancelling nested sums, zero-valued dimensional exponents) is excluded by stated assumptions; infinite/NaN literals are checked on a finite concrete list.",
             "3.6"),
+    "C08": ("L", "other",
+            "lifted native execution of the real assert_equal/approx_equal_* over symbolic real and imaginary parts, tolerances and dimension vectors (z3 Reals); per-path z3 assertion of the statement's clauses; pytest.approx replaced by a validated ApproxScalar model",
+            "For ALL real/complex operands, ALL non-negative tolerances and ALL dimension vectors z3 decides on every path of the real oracle: pass => equivalent dimensions and both parts within the larger tolerance; within the stated tolerance => pass; symmetry without absolute tolerance; bare numbers need an explicit dimension; vectors component-wise with equal lengths (0..3).",
+            "Trusted: z3, the ApproxScalar model (checked against the real pytest.approx on solver-chosen points each run), vlib/lift.py stubs. Reals stand in for doubles: a relative margin of 1e-9 around the tolerance boundary is outside the claim; NaN/inf operands are outside.",
+            "3.8"),
 }
 
 NOT_APPLICABLE = {
